@@ -3,4 +3,5 @@ CONSTANTS
   Tier = "tiny"
 INVARIANT InvClaims
 INVARIANT InvUnwrapDomain
+INVARIANT InvShapesDomain
 CHECK_DEADLOCK FALSE
